@@ -29,6 +29,33 @@ CONTENTS = {
 }
 MD5 = {k: ref.md5(v) for k, v in CONTENTS.items()}
 
+# special names: each is an ordinary file name for the file system, but looks like something code may treat
+# specially (leading dots, "..", a backslash, the suffixes the stores use, surrounding blanks, two Unicode
+# normalisation forms of one name, names that extend a sibling's name); every file has its own content
+SPECIAL_NAMES = [".hidden", "hidden", "a\\b", "a/b", "..notes", "r..f", "x.dir", ".dir", "a.tmp", "k", "k ", " k",
+                 "caf\u00e9", "cafe\u0301", "Q", "q", "data/x", "data.bak/y", "database"]
+SPECIAL = {f"sp{i}": b"special-%d" % i for i in range(len(SPECIAL_NAMES))}
+SPECIAL_MD5 = {k: ref.md5(v) for k, v in SPECIAL.items()}
+SPECIAL_TREE = {name: f"sp{i}" for i, name in enumerate(SPECIAL_NAMES)}
+
+
+def _same_prefix_pair():
+    """Two small contents whose md5 digests share the two-character fan-out prefix (but differ)."""
+    seen = {}
+    i = 0
+    while True:
+        data = b"prefix-twin-%d" % i
+        h = ref.md5(data)
+        if h[:2] in seen:
+            return seen[h[:2]], data
+        seen[h[:2]] = data
+        i += 1
+
+
+_P1, _P2 = _same_prefix_pair()
+TWINS = {"tw1": _P1, "tw2": _P2}
+TWINS_MD5 = {k: ref.md5(v) for k, v in TWINS.items()}
+
 # bulk alphabet: more tiny, distinct objects than any paging / batching constant of the code base
 # (999 SQL parameters, 1000-object listing pages), and not a multiple of a power of two or of 1000
 BULK_N = 1300
